@@ -215,6 +215,8 @@ def main(argv):
             proofs_undecided.append(dict(proof=r["proof"], reason=r["crash"][:600]))
         elif r["undecided"]:
             proofs_undecided.append(dict(proof=r["proof"], reason=r["undecided"]))
+        elif any(e["status"] == "refuted" for e in r["summary"]):
+            pass
         elif not r["summary"] or not any(c.endswith("/end") for c in r["covers"]):
             proofs_undecided.append(dict(proof=r["proof"], reason="vacuity guard: no obligation or no "
                                          "satisfiable path reaches the end of the harness"))
